@@ -37,7 +37,7 @@ Tamper == /\ pc = "blob" /\ Len(ops) < MaxTamper /\ fault = "none"
           /\ UNCHANGED <<pc, W, P, auth, fault, result>>
 
 Fault == /\ pc = "blob" /\ ops = <<>> /\ fault = "none"
-         /\ fault' \in {"enc_err", "err", "wrongkey", "wronglen"}
+         /\ fault' \in {"enc_err", "err", "wrongkey", "wronglen", "longkey", "shortkey"}
          /\ UNCHANGED <<pc, W, P, auth, blob, ops, result>>
 
 DoDecrypt == /\ pc = "blob"
